@@ -10,6 +10,7 @@ mod sc_guard;
 mod sc_lock;
 mod sc_memolock;
 mod sc_read;
+mod sc_reorder;
 mod sc_sig;
 mod sc_stress;
 
@@ -21,6 +22,7 @@ fn c19(case: &Sexp) -> Sexp {
         10 => sc_await::run(case, true),
         31 => sc_await::run_opts(case, false, true),
         32 => sc_audit::run_memo_chain(case),
+        33 => sc_reorder::run(case),
         11 => sc_memolock::run(case),
         13 => sc_memolock::run_immediate(case),
         15 => sc_guard::run_one_thread(case),
